@@ -79,6 +79,20 @@ def run_one(s):
             tr["exc2"] = r[1] if len(r) > 1 else "hang"
         else:
             tr["bits2"], tr["shape2_ok"] = bits_of(r[1], len(coords))
+    # the same 2-D expression built over the product space x1 * x2, queried with the columns in the order (x2, x1): columns are
+    # selected by NAME everywhere
+    tr["bits3"], tr["shape3_ok"], tr["exc3"] = [], True, ""
+    if U.space_vars(e) == ["x"] and tid % 2 == 0:
+        def split_query():
+            d3 = U.build_split(e)
+            t = pts.as_tensor
+            p3 = Points(torch.stack([t[:, 1], t[:, 0]], dim=1), Space({"x2": 1}) * Space({"x1": 1}))
+            return d3._contains(p3, par)
+        r = watched(split_query)
+        if r[0] != "ok":
+            tr["exc3"] = r[1] if len(r) > 1 else "hang"
+        else:
+            tr["bits3"], tr["shape3_ok"] = bits_of(r[1], len(coords))
     # boundary object
     tr["bd"] = "none"
     if s.get("boundary"):
